@@ -561,6 +561,116 @@ inline void format_type(const ST::format_spec &spec, ST::format_writer &out, con
     ST::string inner = ST::format("{}-{}", l.a, l.b);  // two levels of nesting
     ST::format_string(spec, out, inner.c_str(), inner.size());
 }
+
+// A user-defined format_type writing through every method the writer offers: what arrives in the output is exactly what was
+// handed over (array literals with an embedded NUL, pointer + size with an embedded NUL, runs of one character)
+struct WriterProbe {
+    int which;
+};
+inline void format_type(const ST::format_spec &, ST::format_writer &out, const WriterProbe &p)
+{
+    switch (p.which) {
+    case 0: out.append("<a\0b>"); break;                       // array literal, 5 characters
+    case 1: out.append("\0"); break;                           // array literal, 1 character
+    case 2: out.append("plain literal"); break;
+    case 3: out.append("p\0q\0r", 5); break;                   // pointer + size
+    case 4: out.append_char('*', 3); out.append_char('\0', 2); out.append_char('#'); break;
+    case 5: out.append("", 0); out.append_char('x', 0); break;  // nothing
+    case 6: out.append("<").append("a\0").append_char('-', 70).append(">"); break;
+    default: out.append("0123456789", 10); out.append("\0\0"); break;
+    }
+}
+static std::string writer_probe_text(int which)
+{
+    switch (which) {
+    case 0: return std::string("<a\0b>", 5);
+    case 1: return std::string("\0", 1);
+    case 2: return "plain literal";
+    case 3: return std::string("p\0q\0r", 5);
+    case 4: return std::string("***\0\0#", 6);
+    case 5: return "";
+    case 6: return std::string("<a\0", 3) + std::string(70, '-') + ">";
+    default: return std::string("0123456789\0\0", 12);
+    }
+}
+static void run_writer_probe(Ctx &c, uint64_t i)
+{
+    int which = (int)vf::take(i, 8), shape = (int)vf::take(i, 3);
+    static const char *const FM[3] = {"{}", "[{}|{}]", "{}{&1}"};
+    std::string t = writer_probe_text(which);
+    std::string want = shape == 0 ? t : shape == 1 ? "[" + t + "|7]" : t + t;
+    std::string got;
+    vf::Outcome oc = vf::guard([&] {
+        ST::string r = shape == 1 ? ST::format(FM[1], WriterProbe{which}, 7) : ST::format(FM[shape], WriterProbe{which});
+        got.assign(r.c_str(), r.size());
+    });
+    VF_COUNT("validated");
+    if (!oc.ok()) c.fail(strf("user-defined-writer:unexpected-%s", out_slug(oc).c_str()), strf("format %s with writer probe #%d -> %s", FM[shape], which, oc.str().c_str()));
+    else if (got != want)
+        c.fail(strf("user-defined-writer:%s", diff_kind(want, got)),
+               strf("format %s: a user-defined format_type handed the writer %s, the result is %s, expected %s", FM[shape], vf::vis(t).c_str(), vf::vis(got).c_str(), vf::vis(want).c_str()));
+    c.nontrivial();
+}
+
+// every text argument type, every length 0..70 (and around 85 / 128 / 256) of one repeated 1-, 2-, 3- or 4-byte character: the
+// conversion of the argument to UTF-8 may use scratch storage sized by a guess about the text
+static std::u32string tl_text(unsigned ci, unsigned n)
+{
+    static const char32_t CH[4] = {U'a', 0xE9, 0x8001, 0x1F600};
+    std::u32string t(n, CH[ci]);
+    if (n > 1) t[n - 1] = ci == 3 ? U'z' : U'\U0001F600';  // a last character of another width
+    return t;
+}
+static const unsigned TL_LENS[] = {0,  1,  2,  3,  4,  5,  6,  7,  8,  9,  10, 11, 12, 13, 14, 15, 16, 17, 18, 19, 20, 21, 22, 23, 24, 25, 26, 27, 28,
+                                   29, 30, 31, 32, 33, 34, 35, 36, 37, 38, 39, 40, 41, 42, 43, 44, 45, 46, 47, 48, 49, 50, 51, 52, 53, 54, 55, 56, 57,
+                                   58, 59, 60, 61, 62, 63, 64, 65, 66, 67, 68, 69, 70, 84, 85, 86, 127, 128, 129, 255, 256, 257};
+enum { N_TL_LENS = sizeof TL_LENS / sizeof *TL_LENS, N_TL_TYPES = 17 };
+static const char *const TL_TYPE[N_TL_TYPES] = {"const char*", "std::string", "std::string_view", "ST::string", "const char8_t*", "std::u8string", "ST::char_buffer",
+                                                "const wchar_t*", "std::wstring", "std::wstring_view", "const char16_t*", "std::u16string", "std::u16string_view",
+                                                "const char32_t*", "std::u32string", "std::u32string_view", "ST::utf32_buffer"};
+static void run_text_length(Ctx &c, uint64_t i)
+{
+    unsigned ty = (unsigned)vf::take(i, N_TL_TYPES), ci = (unsigned)vf::take(i, 4), n = TL_LENS[vf::take(i, N_TL_LENS)];
+    std::u32string t32 = tl_text(ci, n);
+    ST::string ref = ST::string::from_utf32(t32.data(), t32.size());  // conversions are C01's matter; here only the hand-over counts
+    std::string want(ref.c_str(), ref.size());
+    std::wstring tw(t32.begin(), t32.end());
+    ST::utf16_buffer b16 = ref.to_utf16();
+    std::u16string t16(b16.data(), b16.size());
+    std::string got;
+    vf::Outcome oc = vf::guard([&] {
+        ST::string r;
+        switch (ty) {
+        case 0: r = ST::format("{}", want.c_str()); break;
+        case 1: r = ST::format("{}", want); break;
+        case 2: r = ST::format("{}", std::string_view(want)); break;
+        case 3: r = ST::format("{}", ref); break;
+        case 4: r = ST::format("{}", (const char8_t *)want.c_str()); break;
+        case 5: r = ST::format("{}", std::u8string((const char8_t *)want.data(), want.size())); break;
+        case 6: r = ST::format("{}", ST::char_buffer(want.data(), want.size())); break;
+        case 7: r = ST::format("{}", tw.c_str()); break;
+        case 8: r = ST::format("{}", tw); break;
+        case 9: r = ST::format("{}", std::wstring_view(tw)); break;
+        case 10: r = ST::format("{}", t16.c_str()); break;
+        case 11: r = ST::format("{}", t16); break;
+        case 12: r = ST::format("{}", std::u16string_view(t16)); break;
+        case 13: r = ST::format("{}", t32.c_str()); break;
+        case 14: r = ST::format("{}", t32); break;
+        case 15: r = ST::format("{}", std::u32string_view(t32)); break;
+        default: r = ST::format("{}", ST::utf32_buffer(t32.data(), t32.size())); break;
+        }
+        got.assign(r.c_str(), r.size());
+    });
+    VF_COUNT("validated");
+    if (!oc.ok())
+        c.fail(strf("text-argument-length:%s:unexpected-%s", TL_TYPE[ty], out_slug(oc).c_str()),
+               strf("ST::format(\"{}\", %s of %u characters, %u UTF-8 bytes) -> %s", TL_TYPE[ty], n, (unsigned)want.size(), oc.str().c_str()));
+    else if (got != want)
+        c.fail(strf("text-argument-length:%s:%s", TL_TYPE[ty], diff_kind(want, got)),
+               strf("ST::format(\"{}\", %s of %u characters, %u UTF-8 bytes) returned %u bytes", TL_TYPE[ty], n, (unsigned)want.size(), (unsigned)got.size()));
+    if (n > 1) c.nontrivial();
+}
+
 static const char *const NEST_FMT[] = {"{}", "P{}", "{}Q", "P{}Q", "{}{}", "a{}b{}c", "{>12}|", "{<12}|", "{_*14}", "{&2}{&1}", "{}{&1}{}", "{{{}}}", "xx{.3}yy"};
 enum { N_NEST_FMT = sizeof NEST_FMT / sizeof *NEST_FMT };
 // a _stfmt formatter object used for several calls with different arguments
@@ -1079,6 +1189,16 @@ static void build(vf::Plan &plan, const vf::Opts &o)
                [](uint64_t i) {
                    unsigned fi = (unsigned)vf::take(i, N_NEST_FMT), kind = (unsigned)vf::take(i, 4), sink = (unsigned)vf::take(i, 3);
                    return strf("format %s, argument list #%u, entry point #%u", vf::vis(NEST_FMT[fi]).c_str(), kind, sink);
+               });
+
+    plan.stage("user-defined format_type writing through every format_writer method (array literals and pointer + size with embedded NULs, character runs) x 3 format shapes",
+               8 * 3, [](uint64_t i, Ctx &c) { run_writer_probe(c, i); }, [](uint64_t i) { return strf("writer probe #%u, shape #%u", (unsigned)(i % 8), (unsigned)(i / 8)); });
+    plan.stage(strf("text argument length: %u lengths (0..70, around 85 / 128 / 256) of a repeated 1-/2-/3-/4-byte character x %u text argument types", (unsigned)N_TL_LENS,
+                    (unsigned)N_TL_TYPES),
+               (uint64_t)N_TL_TYPES * 4 * N_TL_LENS, [](uint64_t i, Ctx &c) { run_text_length(c, i); },
+               [](uint64_t i) {
+                   unsigned ty = (unsigned)vf::take(i, N_TL_TYPES), ci = (unsigned)vf::take(i, 4), n = TL_LENS[vf::take(i, N_TL_LENS)];
+                   return strf("%s, %u characters of width class %u", TL_TYPE[ty], n, ci);
                });
 
     plan.stage("a _stfmt formatter object called three times with different arguments (5 format strings)", 5,
